@@ -34,6 +34,7 @@ from . import AnalysisError
 from .index import Index, FuncInfo, ClassInfo, Scope
 
 NONE = ("const", None)
+RAISED = ("unknown", "<raised>")   # the value of a call on the paths where the callee raises (never observed)
 TRUE = ("const", True)
 FALSE = ("const", False)
 
@@ -314,6 +315,8 @@ def alternatives(t, _pc=()) -> list:
     """The leaves of the outermost ite tree with the conditions under which each is the value: [(conds, term)]."""
     if t[0] == "ite":
         return alternatives(t[2], _pc + literals(t[1])) + alternatives(t[3], _pc + literals(t[1], False))
+    if t == RAISED:
+        return []
     return [(_pc, t)]
 
 
@@ -479,6 +482,10 @@ class Summary:
         if not rets:
             return ("unknown", "never returns")
         t = rets[-1][1]
+        if (self.raises or any(e.kind == "raise" for e in self.effects)) and rets[-1][0] and len(rets) > 1:
+            # the last return has its own condition too (the remaining cases raise): keep it
+            lpc = rets[-1][0]
+            t = ite(("and", tuple(lpc)) if len(lpc) != 1 else lpc[0], t, RAISED)
         for pc, v, _ in reversed(rets[:-1]):
             c = ("and", tuple(pc)) if len(pc) != 1 else pc[0]
             if not pc:
@@ -1561,14 +1568,19 @@ TermEval.inline = _te_inline
 
 
 # ------------------------------------------------------------------------------------------ derived views
+def _closed_const(t) -> bool:
+    return t[0] == "const" or (t[0] in ("tuple", "list") and all(_closed_const(x) for x in t[1]))
+
+
 def unroll_const_loops(items):
-    """items: iterable of (pc, term, ctx, payload).  An item inside `for x in (<constants>)` is replaced by one copy per
-    constant with each(...) substituted, and getattr(obj, '<const>') turned into obj.<const>: a loop over a fixed tuple
-    and the same statements written out are the same thing."""
+    """items: iterable of (pc, term, ctx, payload).  An item inside `for x in (<constants>)` (constants, or tuples of
+    constants that the loop unpacks) is replaced by one copy per element with each(...) substituted, <tuple>[i] folded
+    and getattr(obj, '<const>') turned into obj.<const>: a loop over a fixed table and the same statements written out
+    are the same thing."""
     out = []
     for pc, t, ctx, payload in items:
-        loops = [c for c in ctx if c[0] == "for" and c[2][0] in ("tuple", "list") and
-                 all(x[0] == "const" for x in c[2][1])]
+        loops = [c for c in ctx if c[0] == "for" and isinstance(c[2], tuple) and c[2][0] in ("tuple", "list") and
+                 c[2][1] and all(_closed_const(x) for x in c[2][1])]
         if not loops:
             out.append((pc, t, ctx, payload))
             continue
@@ -1579,6 +1591,9 @@ def unroll_const_loops(items):
             def f(x, const=const):
                 if x == el:
                     return const
+                if x[0] == "sub" and x[1][0] in ("tuple", "list") and x[2][0] == "const" and isinstance(x[2][1], int) \
+                        and -len(x[1][1]) <= x[2][1] < len(x[1][1]):
+                    return x[1][1][x[2][1]]
                 if x[0] == "call" and x[1] == ("global", "getattr") and len(x[2]) == 2 and x[2][1][0] == "const" \
                         and isinstance(x[2][1][1], str) and not x[3]:
                     return ("attr", x[2][0], x[2][1][1])
